@@ -1,20 +1,8 @@
 """Extractors: /repo sources -> lean/LimnoriaModel/Gen/*.lean.  Run on every check.
-Each extractor is small, `ast`-based, and raises ExtractionError when the source no
-longer has the expected shape."""
-from vlib.extractlib import (extractor, parse, find_assign, find_func, literal, lchar, lstr,
-                             lstring, llist, write_if_changed, ExtractionError)
-
-@extractor('IrcMsgs')
-def gen_ircmsgs():
-    tree = parse('src/ircmsgs.py')
-    tab = literal(find_assign(tree, 'SERVER_TAG_ESCAPE'), 'SERVER_TAG_ESCAPE')
-    if not (isinstance(tab, list) and all(isinstance(p, tuple) and len(p) == 2 and
-            isinstance(p[0], str) and len(p[0]) == 1 and isinstance(p[1], str) for p in tab)):
-        raise ExtractionError('SERVER_TAG_ESCAPE: expected a list of (char, str) pairs')
-    body = ('import LimnoriaModel.Py.Basic\nnamespace Gen\n\n/-- ircmsgs.SERVER_TAG_ESCAPE -/\n'
-            'def serverTagEscape : List (Char × Py.Str) :=\n  %s\n\nend Gen\n'
-            % llist('(%s, %s)' % (lchar(k), lstr(v)) for k, v in tab))
-    write_if_changed('IrcMsgs.lean', body, 'src/ircmsgs.py')
+The extractors themselves live in harness/extractors/*.py (one module per table family);
+each is small, `ast`-based, and raises ExtractionError when the source no longer has the
+expected shape (fail closed)."""
+import extractors  # noqa: F401  (registers everything)
 
 if __name__ == '__main__':
     import sys
